@@ -91,6 +91,8 @@ def cases_for(cmd):
     base = VALID[cmd]
     keys = sorted(base)
     out = [{'command': cmd, 'props': copy.deepcopy(base), 'op': 'valid'}]      # refused only by a conflict
+    if cmd == 'add':
+        out.append({'command': cmd, 'props': dict(copy.deepcopy(base), start=True), 'op': 'valid+start'})
     # one field
     for k in keys:
         for c in field_corruptions(cmd, k, base[k]):
